@@ -299,12 +299,12 @@ def doRename (s : FS F P W) (old new : String) : FS F P W × Res :=
           let s2 := setNameParent s1 n newname nd
           ({ s2 with ents := eraseEnt s2.ents od oldname }, Res.err Err.ok)
 
-/-- `fileSystem.remove`. -/
+/-- `fileSystem.remove`; `RemoveAll` turns every ErrNotExist (also of the parent lookup) into success. -/
 def doRemove (s : FS F P W) (path : String) (recursive : Bool) : FS F P W × Res :=
   let (dcomps, name) := splitDirBase (trimSlashes path)
   if special name then (s, Res.err Err.inval) else
   match lookupDir s dcomps with
-  | Except.error e => (s, Res.err e)
+  | Except.error e => (s, Res.err (if recursive ∧ e = Err.noent then Err.ok else e))
   | Except.ok d =>
     match child s.ents d name with
     | none => (s, Res.err (if recursive then Err.ok else Err.noent))
